@@ -55,6 +55,96 @@ Definition int32_ok (z : Z) : bool := in_range (- 2 ^ 31) (2 ^ 31 - 1) z.
 Definition int64_ok (z : Z) : bool := in_range (- 2 ^ 63) (2 ^ 63 - 1) z.
 Definition safe_ok (z : Z) : bool := in_range (- (2 ^ 53 - 1)) (2 ^ 53 - 1) z.
 
+(** ** the loops of the Go code, named so that the proofs can speak about them *)
+Section Loops.
+  Context {A : Type}.
+  Variable f : A -> res gval.
+  (** [for i, v := range list { coerced, err := f(v); if err != nil { return nil, err }; result[i] = coerced }] *)
+  Fixpoint res_map (l : list A) : res (list gval) :=
+    match l with
+    | [] => Ok []
+    | x :: r =>
+        match f x with
+        | Ok c => match res_map r with Ok cs => Ok (c :: cs) | Err => Err | Panic => Panic end
+        | Err => Err
+        | Panic => Panic
+        end
+    end.
+End Loops.
+
+Definition res_list (r : res (list gval)) : res gval :=
+  match r with Ok cs => Ok (GList cs) | Err => Err | Panic => Panic end.
+
+(** a declared default as it is stored into the result: schema.Null becomes nil *)
+Definition default_value (d : gval) : gval := match d with GNullSentinel => GNil | _ => d end.
+
+Definition apply_hook (h : hook) (m : list (name * gval)) : res gval :=
+  match h with
+  | HNone => Ok (GMap m)
+  | HWrap tag => Ok (GTagged tag (GMap m))
+  | HFail => Err
+  end.
+
+(** InputObjectType.CoerceVariableValue, the loop over the declared fields; [subs] pairs every key
+    of the provided map with the coercion of its value *)
+Definition var_field_step (subs : list (name * (sty -> bool -> res gval)))
+           (acc : res (list (name * gval))) (f : name * in_def) : res (list (name * gval)) :=
+  match acc with
+  | Ok result =>
+      let (fname, fd) := f in
+      match aget fname subs with
+      | Some co =>
+          match co (in_type fd) true with
+          | Ok c => Ok (mset fname c result)
+          | Err => Err
+          | Panic => Panic
+          end
+      | None =>
+          match in_default fd with
+          | Some d => Ok (mset fname (default_value d) result)
+          | None => if is_nonnull (in_type fd) then Err else Ok result
+          end
+      end
+  | _ => acc
+  end.
+
+(** InputObjectType.CoerceLiteral, first loop: the literal's fields in order *)
+Section LitLoop.
+  Variable co : lit -> sty -> bool -> res gval.      (* coerce_literal vv *)
+  Variable vv : list (name * gval).
+  Variable fields : list (name * in_def).
+  Fixpoint lit_fields_loop (l : list (name * lit)) (result : list (name * gval)) : res (list (name * gval)) :=
+    match l with
+    | [] => Ok result
+    | (fname, fv) :: r =>
+        match aget fname fields with
+        | None => Err                                  (* unknown field *)
+        | Some fd =>
+            if match fv with LVar vn => negb (ahas vn vv) | _ => false end
+            then lit_fields_loop r result              (* variable without a value: as if omitted *)
+            else match co fv (in_type fd) true with
+                 | Ok c => lit_fields_loop r (mset fname c result)
+                 | Err => Err
+                 | Panic => Panic
+                 end
+        end
+    end.
+End LitLoop.
+
+(** InputObjectType.CoerceLiteral, second loop: the declared fields *)
+Definition lit_default_step (acc : res (list (name * gval))) (f : name * in_def) : res (list (name * gval)) :=
+  match acc with
+  | Ok result =>
+      let (fname, fd) := f in
+      match aget fname result, in_default fd with
+      | None, Some d => Ok (mset fname (default_value d) result)
+      | o, _ =>
+          if match o with None => true | Some v => is_nil v end && is_nonnull (in_type fd)
+          then Err else Ok result
+      end
+  | _ => acc
+  end.
+
 Section Model.
   Variable fx : fixes.
   Variable E : env.
@@ -145,19 +235,6 @@ Section Model.
     | _ => Err
     end.
 
-  (** a declared default as it is stored into the result: schema.Null becomes nil *)
-  Definition default_value (d : gval) : gval := match d with GNullSentinel => GNil | _ => d end.
-
-  Definition apply_hook (h : hook) (m : list (name * gval)) : res gval :=
-    match h with
-    | HNone => Ok (GMap m)
-    | HWrap tag => Ok (GTagged tag (GMap m))
-    | HFail => Err
-    end.
-
-  Definition res_list (r : res (list gval)) : res gval :=
-    match r with Ok cs => Ok (GList cs) | Err => Err | Panic => Panic end.
-
   (** *** schema.coerceVariableValue (with ListType.coerceVariableValue and
       InputObjectType.CoerceVariableValue inlined).  Outer recursion on the value, inner on the
       type. *)
@@ -171,15 +248,7 @@ Section Model.
           | StList t' =>
               match value with
               | JList items =>
-                  res_list ((fix go (l : list jval) : res (list gval) :=
-                     match l with
-                     | [] => Ok []
-                     | v :: r => match coerce_var_value v t' false with
-                                 | Ok c => match go r with Ok cs => Ok (c :: cs) | Err => Err | Panic => Panic end
-                                 | Err => Err
-                                 | Panic => Panic
-                                 end
-                     end) items)
+                  res_list (res_map (fun v => coerce_var_value v t' false) items)
               | _ =>
                   if allow then
                     match on_ty t' true with
@@ -199,26 +268,7 @@ Section Model.
                       (* the sub-values paired with their own coercion function: lets the loop
                          below follow Go's order (declared fields, looking each up in the map) *)
                       let subs := map (fun p => match p with (k, jv) => (k, coerce_var_value jv) end) kvs in
-                      let step (acc : res (list (name * gval))) (f : name * in_def) : res (list (name * gval)) :=
-                        match acc with
-                        | Ok result =>
-                            let (fname, fd) := f in
-                            match aget fname subs with
-                            | Some co =>
-                                match co (in_type fd) true with
-                                | Ok c => Ok (mset fname c result)
-                                | Err => Err
-                                | Panic => Panic
-                                end
-                            | None =>
-                                match in_default fd with
-                                | Some d => Ok (mset fname (default_value d) result)
-                                | None => if is_nonnull (in_type fd) then Err else Ok result
-                                end
-                            end
-                        | _ => acc
-                        end in
-                      match fold_left step fields (Ok []) with
+                      match fold_left (var_field_step subs) fields (Ok []) with
                       | Ok result =>
                           if forallb (fun p => ahas (fst p) fields) kvs then apply_hook h result
                           else Err                                              (* unknown field *)
@@ -252,15 +302,7 @@ Section Model.
               | StList t' =>
                   match from with
                   | LList vs =>
-                      res_list ((fix go (l : list lit) : res (list gval) :=
-                         match l with
-                         | [] => Ok []
-                         | v :: r => match coerce_literal vv v t' false with
-                                     | Ok c => match go r with Ok cs => Ok (c :: cs) | Err => Err | Panic => Panic end
-                                     | Err => Err
-                                     | Panic => Panic
-                                     end
-                         end) vs)
+                      res_list (res_map (fun v => coerce_literal vv v t' false) vs)
                   | _ =>
                       if allow then
                         match on_ty t' true with
@@ -277,40 +319,11 @@ Section Model.
                   | Some (TInput fields h) =>
                       match from with
                       | LObject fs =>
-                          (* first loop: the literal's fields, in order *)
-                          let r1 :=
-                            (fix go (l : list (name * lit)) (result : list (name * gval)) : res (list (name * gval)) :=
-                               match l with
-                               | [] => Ok result
-                               | (fname, fv) :: r =>
-                                   match aget fname fields with
-                                   | None => Err                                  (* unknown field *)
-                                   | Some fd =>
-                                       if match fv with LVar vn => negb (ahas vn vv) | _ => false end
-                                       then go r result                            (* variable without a value: as if omitted *)
-                                       else match coerce_literal vv fv (in_type fd) true with
-                                            | Ok c => go r (mset fname c result)
-                                            | Err => Err
-                                            | Panic => Panic
-                                            end
-                                   end
-                               end) fs [] in
-                          (* second loop: the declared fields *)
-                          let step (acc : res (list (name * gval))) (f : name * in_def) : res (list (name * gval)) :=
-                            match acc with
-                            | Ok result =>
-                                let (fname, fd) := f in
-                                match aget fname result, in_default fd with
-                                | None, Some d => Ok (mset fname (default_value d) result)
-                                | o, _ =>
-                                    if match o with None => true | Some v => is_nil v end && is_nonnull (in_type fd)
-                                    then Err else Ok result
-                                end
-                            | _ => acc
-                            end in
+                          (* first loop: the literal's fields, in order; second loop: the declared fields *)
+                          let r1 := lit_fields_loop (coerce_literal vv) vv fields fs [] in
                           match r1 with
                           | Ok result =>
-                              match fold_left step fields (Ok result) with
+                              match fold_left lit_default_step fields (Ok result) with
                               | Ok result' => apply_hook h result'
                               | Err => Err
                               | Panic => Panic
